@@ -98,6 +98,10 @@ def run(ctx, rep):
             if n.kind == "cond":
                 t = utext(n.exprs[0])
                 val = one if t == "len(%s) == 1" % p0 else (valid if t == memb else None)
+                if val is None and t in ("isinstance(%s, str)" % p0, "type(%s) is str" % p0, "type(%s) == str" % p0):
+                    val = True   # the domain of the table is strings; anything else must simply be refused
+                    if not (one or valid):
+                        val = None
                 if val is not None:
                     todo += [m for l, m in n.succ if l == ("T" if val else "F")]
                     continue
@@ -146,11 +150,13 @@ def run(ctx, rep):
     assign = [n for n in cfg.live_nodes() if n.kind == "stmt" and utext(n.ast).startswith("self._sep =")]
     good = len(assign) == 1
     if good:
-        gs = [(utext(g.exprs[0]), pol) for g, pol in cfg.guards(assign[0].id)]
-        good = gs == [("self.is_valid_customer_order_ref_character(%s)" % st.params[1], True)]
+        gs = {(utext(g.exprs[0]), pol) for g, pol in cfg.guards(assign[0].id)}
+        # stored only when the validator accepted it (further refusals in front of the store are fine) ...
+        good = ("self.is_valid_customer_order_ref_character(%s)" % st.params[1], True) in gs
         raises = [n for n in cfg.live_nodes() if n.kind == "raise"]
-        good = good and len(raises) == 1 and utext(raises[0].ast.exc.func) == "ValueError"
-        good = good and cfg.exit not in cfg.reachable([m for l, m in cfg.nodes[[g for g, p in cfg.guards(assign[0].id)][0].id].succ if l == "F"][0])
+        good = good and len(raises) >= 1 and all(utext(r.ast.exc.func) == "ValueError" for r in raises)
+        # ... and every way out that does not store raises
+        good = good and cfg.all_paths_pass(cfg.entry, cfg.exit, [assign[0].id])
     rep.check(good, "R4", key(st, None, "the setter stores a valid separator and raises ValueError otherwise"), st)
     sw = []
     for f, s, t, kind in all_stores(prog, "_sep"):
